@@ -112,6 +112,14 @@ the name and returns a string cut out of it (withoutExt) is summarised per retur
 and spliced into the caller's typestate; operator+ may assemble the member directly if the part behind the separator is the
 string of a FileName that every path has tested to be non-empty (.empty() / size() / == "") and nothing follows it.
 
+Round 9: a tokeniser may hand (string, begin, end | offset, length, vector) to a file-local push helper: the call is a token
+emission, the helper's own tests are an R-C18-2 instance; a branch that decides whether the push is reached and compares the
+token with an element of the output vector (tokens.back() == token) is recognised wrong (repeated tokens must be kept).
+params may be grouped by name with std::stable_sort and a names-only comparator (std::sort: not stable, recognised wrong);
+getValue may then take the entry in front of std::upper_bound (same comparator, key pair(name, ..), absent iff bound == begin
+or the name in front differs), hasParam std::binary_search.  parseAndRemove scanning from the back is recognised wrong
+(an option owns the arguments behind it).
+
 Helpers: file-local / private helpers are followed with parameters mapped (FileName position helpers are
 summarised into the typestate, a prefix-length index loop stands for std::mismatch, a lookup helper that scans
 from the back and returns the first hit stands for last-duplicate-wins, name=value cutting may live in a helper).
@@ -954,6 +962,28 @@ class TokenFn:
                 if len(ks) == 3 and self.x.var_of(ks[0])[0] in fparams and \
                         all(is_int_ct(tu.sd(tu.strip(y, casts=True)).get('ct') or tu.sd(y).get('ct')) for y in ks[1:]):
                     yield n, ks[0], ('visit', ks[1], ks[2]), (b.id, i)
+        # a token handed to a file-local helper that pushes  str.substr(begin, end - begin)  /  str.substr(offset, length)
+        for b, i, n in self.x.g.stmts():
+            if n.get('kind') != 'CallExpr':
+                continue
+            hf = tu.callee_fn(n)
+            if hf is None or hf['id'] == self.f['id'] or hf.get('rec') or hf['dep'] or tu.fn_file(hf) != tu.fn_file(self.f):
+                continue
+            eh = emit_helper(tu, hf)
+            if eh is None:
+                continue
+            args = tu.kids(n)[1:]
+            if len(args) != len(hf['params']):
+                continue
+            sa, va = args[eh['str']], args[eh['vec']]
+            sd_, sv_ = self.x.var_of(sa)
+            vd_, vv_ = self.x.var_of(va)
+            if sd_ is None or vd_ is None or sd_ not in fparams or vd_ not in fparams:
+                continue
+            self.emit_helpers = getattr(self, 'emit_helpers', [])
+            if hf not in self.emit_helpers:
+                self.emit_helpers.append(hf)
+            yield n, va, ('emit', args[eh['a']], args[eh['b']], eh['mode'], sa), (b.id, i)
 
     def token(self, arg, at):
         """describe the pushed token:
@@ -967,6 +997,15 @@ class TokenFn:
                 return None
             src = ('var', sp[0]['id'], sp[0]['name'])
             pp, nn = x.poly_at(arg[1], at), x.poly_at(arg[2], at)
+            if nn == Poly.atom(('size', src)) - pp:
+                nn = None
+            return ('substr', src, pp, [([], nn)], tu.par(arg[1]) or arg[1], None, at)
+        if isinstance(arg, tuple) and arg and arg[0] == 'emit':
+            # helper(str, begin, end, tokens) / helper(str, offset, length, tokens): the token is a substr of the string handed on
+            sd_, sv_ = x.var_of(arg[4])
+            src = ('var', sd_, sv_['name'])
+            pp, bb = x.poly_at(arg[1], at), x.poly_at(arg[2], at)
+            nn = (bb - pp) if arg[3] == 'be' else bb
             if nn == Poly.atom(('size', src)) - pp:
                 nn = None
             return ('substr', src, pp, [([], nn)], tu.par(arg[1]) or arg[1], None, at)
@@ -1058,6 +1097,107 @@ class TokenFn:
                 n = x.poly_at(a1, at)
                 alts.append(([], None if n == P_NPOS else n))
         return ('substr', src, p, alts, e, alias, at)
+
+
+_EMIT_MEMO = {}
+
+
+def emit_helper(tu, hf):
+    """hf(const std::string &s, size_t a, size_t b, std::vector<std::string> &out) whose only push onto `out` is
+    s.substr(a, b - a) ('be': begin / end) or s.substr(a, b) ('ol': offset / length), possibly through a named local and std::move.
+    {'str', 'vec', 'a', 'b': parameter indices, 'mode', 'push': (call, pos), 'tf'} or None.  What else the helper tests before it
+    pushes is checked on the helper itself (R-C18-2)."""
+    k = (id(tu), hf['id'])
+    if k in _EMIT_MEMO:
+        return _EMIT_MEMO[k]
+    _EMIT_MEMO[k] = None
+    ps = hf.get('params', [])
+    if tu.cfg(hf) is None or plain_ct(hf['fty'].split('(')[0]) != 'void':
+        return None
+    si = [i for i, p in enumerate(ps) if 'basic_string' in p['ct'] and 'vector' not in p['ct'] and p['ct'].startswith('const ')]
+    vi = [i for i, p in enumerate(ps) if 'vector<std::basic_string<char>' in p['ct'] and not p['ct'].startswith('const ')]
+    ii = [i for i, p in enumerate(ps) if is_int_ct(p['ct'])]
+    if len(si) != 1 or len(vi) != 1 or len(ii) != 2 or len(ps) != 4:
+        return None
+    tf = TokenFn(tu, hf)
+    x = tf.x
+    for i in ii:
+        v = x.vars.get(ps[i]['id'])
+        if v is None or v['defs'] or v['escaped']:
+            return None
+    pushes = [p for p in tf.pushes() if not (isinstance(p[2], tuple) and p[2] and p[2][0] in ('visit', 'emit'))]
+    if len(pushes) != 1 or x.var_of(pushes[0][1])[0] != ps[vi[0]]['id']:
+        return None
+    call, vec, arg, pos = pushes[0]
+    tok = tf.token(arg, pos)
+    if tok is None or tok[0] != 'substr' or tok[1] != ('var', ps[si[0]]['id'], ps[si[0]]['name']) or len(tok[3]) != 1 or tok[3][0][0]:
+        return None
+    pp, nn = tok[2], tok[3][0][1]
+    A, B = [Poly.atom(('var', ps[i]['id'], ps[i]['name'])) for i in ii]
+    mode = None
+    a, b = ii
+    if pp == A and nn is not None and nn == B - A:
+        mode = 'be'
+    elif pp == A and nn is not None and nn == B:
+        mode = 'ol'
+    elif pp == B and nn is not None and nn == A - B:
+        mode, a, b = 'be', ii[1], ii[0]
+    if mode is None:
+        return None
+    _EMIT_MEMO[k] = {'str': si[0], 'vec': vi[0], 'a': a, 'b': b, 'mode': mode, 'push': (call, pos), 'tf': tf, 'tok': tok}
+    return _EMIT_MEMO[k]
+
+
+def content_filter(tu, tf, pos, tok, vec):
+    """a branch edge every path to the push takes compares the token with an element of the output vector
+    (tokens.back() == token): returns the comparison node, else None"""
+    x = tf.x
+    alias = tok[5]
+    vd = x.var_of(vec)[0] if vec is not None else None
+
+    def is_token(e):
+        e = x.peel(e)
+        if e is None:
+            return False
+        if alias is not None and x.var_of(e)[0] == alias[1]:
+            return True
+        return e.get('kind') == 'CXXMemberCallExpr' and last_name(tu.sd(e).get('q')) == 'substr' and x.objkey(tu.call_parts(e)[1]) == tok[1]
+
+    def from_vec(e):
+        e = x.peel(e)
+        if e is None:
+            return False
+        for y in tu.walk(e):
+            if y.get('kind') in ('CXXMemberCallExpr', 'CXXOperatorCallExpr') and \
+                    last_name(tu.sd(y).get('q')) in ('back', 'front', 'at', 'operator[]', 'rbegin', 'begin', 'end', 'crbegin'):
+                o = tu.call_parts(y)[1] if y.get('kind') == 'CXXMemberCallExpr' else (tu.kids(y)[1] if len(tu.kids(y)) > 1 else None)
+                if o is not None and vd is not None and x.var_of(o)[0] == vd:
+                    return True
+        return False
+    g = x.g
+    conds = []
+    for b in g.blocks.values():
+        if b.cond is None or len([s_ for s_ in b.succ if s_ is not None]) != 2:
+            continue
+        if pos[0] not in _reach_blocks(g, b.id) or b.id == pos[0]:
+            continue
+        if g.postdominates(pos, (b.id, max(len(b.el) - 1, 0))):
+            continue                  # the push runs whatever this branch decides
+        c = tu.node(b.cond)
+        if c is not None:
+            conds.append(c)
+    for cn in conds:
+        for y in tu.walk(cn):
+            k = y.get('kind')
+            if k == 'CXXOperatorCallExpr' and tu.sd(y).get('q') in ('std::operator==', 'std::operator!=') and len(tu.kids(y)) == 3:
+                a, b = tu.kids(y)[1:3]
+            elif k == 'CXXMemberCallExpr' and last_name(tu.sd(y).get('q')) == 'compare' and len(tu.call_parts(y)[2]) == 1:
+                a, b = tu.call_parts(y)[1], tu.call_parts(y)[2][0]
+            else:
+                continue
+            if (is_token(a) and from_vec(b)) or (is_token(b) and from_vec(a)):
+                return y
+    return None
 
 
 def push_substr_lambda(tu, args, str_id, vec_id):
@@ -1324,6 +1464,15 @@ def check_tokens(ctx, tu, qnames):
                     check_getline_push(ctx, tu, tf, f, sig, file, fname, call, tok, pos)
                     continue
                 _, src, p, alts, sub, alias, at = tok
+                cf = content_filter(tu, tf, pos, tok, vec)
+                if cf is not None:
+                    n2 += 1
+                    ctx.violation(R2, '%s: %s' % (sig, tu.show(call)), 'every non-empty token must be kept, but the push is reached only '
+                                  'past `%s`, which compares the token with one that is already stored: a token equal to its predecessor is '
+                                  'dropped ("a:a" and "a::a" give one token; a URL component repeated verbatim, or a parameter spelled like '
+                                  'the file name, disappears). Repeated DELIMITERS produce no token, repeated tokens are kept'
+                                  % tu.show(cf), tu.loc(cf), key='%s|%s|%s|drops-repeated-token' % (R2, file, fname))
+                    continue
                 for extra, n in alts:
                     n2 += 1
                     n7 += 1
@@ -1336,6 +1485,27 @@ def check_tokens(ctx, tu, qnames):
                                  Poly.atom(('size', src)) - p)
                     check_extent(ctx, tu, tf, R7, inst, '%s|%s|%s|%s' % (R7, file, fname, kind), call, pos, extra, src, p,
                                  n, at, loc)
+            # what a push helper tests before it pushes (the extents were checked where it is called)
+            for hf in getattr(tf, 'emit_helpers', []):
+                eh = emit_helper(tu, hf)
+                hcall, hpos = eh['push']
+                htf = eh['tf']
+                htok = eh['tok']
+                hsig = '%s %s' % (fn_name(hf), hf['fty'])
+                hfile, hname = tu.fn_file(hf), fn_name(hf)
+                n2 += 1
+                hvec = tu.call_parts(hcall)[1]
+                cf = content_filter(tu, htf, hpos, htok, hvec)
+                if cf is not None:
+                    ctx.violation(R2, '%s: %s' % (hsig, tu.show(hcall)), 'every non-empty token must be kept, but the push is reached only '
+                                  'past `%s`, which compares the token with one that is already stored: a token equal to its predecessor is '
+                                  'dropped ("a:a" and "a::a" give one token; a URL component repeated verbatim, or a parameter spelled like '
+                                  'the file name, disappears). Repeated DELIMITERS produce no token, repeated tokens are kept'
+                                  % tu.show(cf), tu.loc(cf), key='%s|%s|%s|drops-repeated-token' % (R2, hfile, hname))
+                else:
+                    nlen = htok[3][0][1]
+                    check_filter(ctx, tu, htf, R2, '%s: push_back(%s) [helper]' % (hsig, tu.show(htok[4])),
+                                 '%s|%s|%s|helper-token' % (R2, hfile, hname), hcall, hpos, [], nlen, htok[5], htok[6], tu.loc(hcall))
             if n2 > before:
                 nf += 1
             n7 += check_delim_class(ctx, tu, tf, f, sig, file, fname, R7)
@@ -3917,6 +4087,15 @@ def check_arglist(ctx, tu):
         loc = tu.loc(lp.cond)
         lst = f['params'][0]
         LKEY = ('var', lst['id'], lst['name'])
+        if lp.step is not None and lp.step < 0 and not lp.ascending_test and \
+                any(c[1][0] in lp.body for c in calls_in(x, ('tryConsume',))):
+            ctx.violation(R, inst, 'the arguments are offered to tryConsume from the last one to the first (`%s` starts at `%s` and is '
+                          'stepped by %d): a command line is read left to right, an option owns the arguments that follow it whatever '
+                          'they look like. Scanning backwards, an argument inside the span of a multi-argument option (`-o -v in.txt`: the '
+                          'value of -o is spelled like the flag -v) is consumed on its own first, and the owning option then takes the '
+                          'next surviving argument (`in.txt`), which belongs to nobody and must be kept'
+                          % (lp.iname, lp.init.show(), lp.step), loc, key=key + 'scan-direction')
+            continue
         if lp.init.as_int() != 0:
             bad.append(('scan-start', 'the scan starts at argument %s, expected 0' % lp.init.show()))
         if not lp.ascending_test or lp.bound_excl != Poly.atom(('size', LKEY)):
@@ -6582,6 +6761,295 @@ def lookup_via_algorithm(ctx, tu, f, R, inst, key, want, sch):
     return True
 
 
+def sorted_scheme(tu):
+    """the constructor groups the list by name behind its last append:  std::stable_sort(params.begin(), params.end(), cmp)  with a
+    comparator that looks at the names only and orders them ascending; nothing else rearranges the list.
+    {'label', 'fn', 'call'} or None"""
+    fq = URL + '::params'
+    recs = order_scan(tu, fq)
+    if any(k in ('destroy', 'undecided') for k, t, n, f in recs):
+        return None
+    keeps = [(n, f) for k, t, n, f in recs if k == 'keep']
+    if not keeps or any(f is not keeps[0][1] for n, f in keeps):
+        return None
+    f = keeps[0][1]
+    if not f.get('ctor') or f.get('rec') != URL or tu.cfg(f) is None:
+        return None
+    sorts = []
+    for b, i, nd in tu.cfg(f).stmts():
+        if nd.get('kind') == 'CallExpr' and tu.sd(nd).get('q') == 'std::stable_sort':
+            sorts.append((nd, (b.id, i)))
+    if len(sorts) != 1 or len(tu.kids(sorts[0][0])) != 4:
+        return None
+    call, pos = sorts[0]
+    cmp_ = names_only_cmp(tu, tu.kids(call)[3])
+    if cmp_ is None or not cmp_['asc']:
+        return None
+    g = tu.cfg(f)
+    after = _reach_blocks(g, pos[0])
+    x = FnX(tu, f)
+    for k, t, n, ff in recs:
+        if k == 'append':
+            if ff is not f:
+                return None
+            ap = x.pos_of(n)
+            if ap is None or ap[0] in after:
+                return None           # an append that can run behind the sort
+    # every path that appends reaches the sort: the sort is on every path from the last append to the exit
+    if not g.postdominates(pos, (g.entry, 0)):
+        seen = {g.entry}
+        st = [g.entry]
+        apb = {x.pos_of(n)[0] for k, t, n, ff in recs if k == 'append'}
+        # paths that bypass the sort must not pass an append
+        while st:
+            b = st.pop()
+            if b == pos[0]:
+                continue
+            if b in apb:
+                pass
+            for s_ in g.blocks[b].succ:
+                if s_ is not None and s_ not in seen:
+                    seen.add(s_)
+                    st.append(s_)
+        for a in apb:
+            # can the exit be reached from the append without passing the sort?
+            r = _reach_blocks(g, a, stop=pos[0])
+            if g.exit in r:
+                return None
+    return {'label': cmp_['label'], 'fn': cmp_['fn'], 'call': call}
+
+
+def lookup_via_sorted(ctx, tu, f, R, inst, key, want):
+    """getValue / hasParam on a list that the constructor keeps grouped by name (sorted_scheme):
+       value:  last = std::upper_bound(begin, end, pair(name, ..), cmp);  absent iff last == begin || (last - 1)->first != name,
+               else (last - 1)->second  - the end of the run of equal names is the entry written last
+       bool:   std::binary_search(begin, end, pair(name, ..), cmp)
+    Returns True if handled."""
+    fq = URL + '::params'
+    x = FnX(tu, f)
+    algos = [(nd, (b.id, i)) for b, i, nd in x.g.stmts() if nd.get('kind') == 'CallExpr' and
+             tu.sd(nd).get('q') in ('std::upper_bound', 'std::lower_bound', 'std::binary_search', 'std::equal_range')]
+    if len(algos) != 1:
+        return False
+    call, cpos = algos[0]
+    loc = tu.loc(call)
+    algo = last_name(tu.sd(call).get('q'))
+    sc = sorted_scheme(tu)
+    if sc is None:
+        ctx.undecided(R, inst, '`%s` presupposes a list ordered by name, but the constructor is not seen to group the entries with '
+                      'std::stable_sort and a names-only comparator behind its last append' % tu.show(call), loc)
+        return True
+    args = tu.kids(call)[1:]
+    bad, und = [], []
+    if len(args) != 4:
+        und.append('`%s` is not called with (begin, end, key, comparator)' % tu.show(call))
+    else:
+        ends = []
+        for a in args[:2]:
+            nm = None
+            for y in tu.walk(a):
+                if y.get('kind') == 'CXXMemberCallExpr' and last_name(tu.sd(y).get('q')) in ('begin', 'end', 'cbegin', 'cend'):
+                    s_, obj, aa = tu.call_parts(y)
+                    o = tu.strip(obj, casts=True) if obj is not None else None
+                    if o is not None and o.get('kind') == 'MemberExpr' and tu.sd(o).get('q') == fq and not aa:
+                        nm = last_name(tu.sd(y).get('q')).lstrip('c')
+            ends.append(nm)
+        if ends != ['begin', 'end']:
+            und.append('`%s` does not search the whole list' % tu.show(call))
+        c2 = names_only_cmp(tu, args[3])
+        if c2 is None or c2['fn'] != sc['fn']:
+            und.append('`%s` does not search with the comparator `%s` the constructor sorts with' % (tu.show(call), sc['label']))
+        # the key: a pair whose name is the argument
+        ke = x.peel(args[2])
+        for _ in range(3):
+            dv = x.var_of(ke)[0] if ke is not None else None
+            if dv is not None and x.single_init(dv) is not None:
+                ke = x.peel(x.single_init(dv))
+            else:
+                break
+        okk = False
+        name_param = f['params'][0]['id'] if f.get('params') else None
+        if ke is not None and ke.get('kind') in ('CXXConstructExpr', 'CXXTemporaryObjectExpr', 'CXXFunctionalCastExpr', 'CallExpr'):
+            ks = [y for y in tu.kids(ke) if y.get('kind') != 'CXXDefaultArgExpr']
+            if ke.get('kind') == 'CallExpr':
+                ks = ks[1:] if tu.sd(ke).get('q') == 'std::make_pair' else []
+            if len(ks) == 2 and x.var_of(ks[0])[0] == name_param:
+                okk = True
+        if not okk:
+            und.append('the search key `%s` is not a pair whose name is the argument' % tu.show(args[2]))
+    if want == 'bool':
+        rets = [nd for b, i, nd in x.g.stmts() if nd.get('kind') == 'ReturnStmt']
+        e = x.peel(tu.kids(rets[0])[0]) if len(rets) == 1 and tu.kids(rets[0]) else None
+        if algo != 'binary_search' or e is None or e.get('id') != call.get('id'):
+            und.append('hasParam is not `return std::binary_search(...)`')
+    else:
+        tracked = None
+        for d, v in x.vars.items():
+            init = x.single_init(d)
+            if init is not None and x.peel(init) is not None and x.peel(init).get('id') == call.get('id'):
+                tracked = d
+        if algo != 'upper_bound':
+            und.append('`std::%s` does not yield the end of the run of entries with the name; how its result leads to the entry written '
+                       'last is not decided' % algo)
+            tracked = None
+        elif tracked is None:
+            und.append('the result of `%s` is not kept in a local that is set once' % tu.show(call))
+        if tracked is not None:
+            def prev_elem(e):
+                """e is (last - 1)->  /  *(last - 1)  /  *std::prev(last)  -> 'prev';  last-> / *last -> 'at'"""
+                e = tu.strip(e, casts=True)
+                if e is None:
+                    return None
+                if e.get('kind') == 'CXXOperatorCallExpr' and last_name(tu.sd(e).get('q')) in ('operator->', 'operator*'):
+                    e = tu.strip(tu.kids(e)[1], casts=True)
+                elif e.get('kind') == 'UnaryOperator' and e.get('opcode') == '*':
+                    e = tu.strip(tu.kids(e)[0], casts=True)
+                else:
+                    return None
+                for _ in range(4):
+                    if e is not None and e.get('kind') in ('MaterializeTemporaryExpr', 'CXXBindTemporaryExpr', 'ParenExpr') and tu.kids(e):
+                        e = tu.strip(tu.kids(e)[0], casts=True)
+                if x.var_of(e)[0] == tracked:
+                    return 'at'
+                if e is not None and e.get('kind') == 'CXXOperatorCallExpr' and last_name(tu.sd(e).get('q')) == 'operator-' and \
+                        len(tu.kids(e)) == 3 and x.var_of(tu.kids(e)[1])[0] == tracked and x.poly_at(tu.kids(e)[2], None).as_int() == 1:
+                    return 'prev'
+                if e is not None and e.get('kind') == 'CallExpr' and tu.sd(e).get('q') == 'std::prev' and len(tu.kids(e)) in (2, 3) and \
+                        x.var_of(tu.kids(e)[1])[0] == tracked:
+                    return 'prev'
+                return None
+
+            def cond_kind(c):
+                """('front', eq)  last == begin   |   ('name', eq, which)  <elem>->first == name"""
+                c = tu.strip(c, casts=True)
+                neg = False
+                while c is not None and c.get('kind') == 'UnaryOperator' and c.get('opcode') == '!':
+                    neg = not neg
+                    c = tu.strip(tu.kids(c)[0], casts=True)
+                if c is None or c.get('kind') != 'CXXOperatorCallExpr' or last_name(tu.sd(c).get('q')) not in ('operator==', 'operator!='):
+                    return None
+                eq = (last_name(tu.sd(c).get('q')) == 'operator==') != neg
+                ks = tu.kids(c)[1:]
+                if len(ks) != 2:
+                    return None
+                for u, v in ((ks[0], ks[1]), (ks[1], ks[0])):
+                    if x.var_of(u)[0] == tracked:
+                        for z in tu.walk(v):
+                            if z.get('kind') == 'CXXMemberCallExpr' and last_name(tu.sd(z).get('q')) in ('begin', 'cbegin') and \
+                                    tu.sd(tu.strip(tu.call_parts(z)[1], casts=True)).get('q') == fq:
+                                return ('front', eq)
+                    ue = tu.strip(u, casts=True)
+                    if ue is not None and ue.get('kind') == 'MemberExpr' and ue.get('name') == 'first' and x.var_of(v)[0] == name_param:
+                        w = prev_elem(tu.kids(ue)[0])
+                        if w is not None:
+                            return ('name', eq, w)
+                return None
+            recs = []
+            odd = []
+
+            def transfer(blk, idx, el, st):
+                if el[0] != 'S':
+                    return [st]
+                n = tu.node(el[1])
+                if n is None:
+                    return [st]
+                if n.get('kind') == 'ReturnStmt':
+                    recs.append(('return', n, st))
+                elif n.get('kind') == 'CXXThrowExpr':
+                    recs.append(('throw', n, st))
+                    return []
+                return [st]
+
+            def refine_e(c, val, st):
+                c0 = tu.strip(c, casts=True)
+                while c0 is not None and c0.get('kind') in ('ExprWithCleanups', 'ParenExpr') and tu.kids(c0):
+                    c0 = tu.strip(tu.kids(c0)[0], casts=True)
+                if c0 is not None and c0.get('kind') == 'UnaryOperator' and c0.get('opcode') == '!' and \
+                        tu.strip(tu.kids(c0)[0], casts=True).get('kind') == 'BinaryOperator':
+                    return refine_e(tu.kids(c0)[0], not val, st)
+                if c0 is not None and c0.get('kind') == 'BinaryOperator' and c0.get('opcode') in ('&&', '||'):
+                    a, b = tu.kids(c0)[:2]
+                    conj = (c0['opcode'] == '&&') == val
+                    out = []
+                    if conj:
+                        for s1 in refine_e(a, val, st):
+                            out += refine_e(b, val, s1)
+                    else:
+                        out += refine_e(a, val, st)
+                        for s1 in refine_e(a, not val, st):
+                            out += refine_e(b, val, s1)
+                    res = []
+                    for o in out:
+                        if o not in res:
+                            res.append(o)
+                    return res
+                ck = cond_kind(c0) if c0 is not None else None
+                if ck is None:
+                    return [st]
+                front, same = st
+                if ck[0] == 'front':
+                    isfront = val == ck[1]
+                    if front is not None and front != isfront:
+                        return []
+                    return [(isfront, same)]
+                if ck[2] != 'prev':
+                    odd.append('`%s` looks at the element AT the upper bound, which is the first entry behind the run of that name (or '
+                               'end()): the entry in front of it is the last one written' % tu.show(c0))
+                if front is not False:
+                    odd.append('`%s` looks at the element in front of the upper bound although the bound may be begin()' % tu.show(c0))
+                issame = val == ck[1]
+                if same is not None and same != issame:
+                    return []
+                return [(front, issame)]
+
+            def refine(blk, si, st):
+                c = deciding_cond(tu, blk, x.g)
+                if c is None:
+                    return [st]
+                return refine_e(c, si == 0, st)
+            x.g.explore([(None, None)], transfer, refine)
+            for o in odd:
+                (bad if 'AT the upper bound' in o else und).append(('upper-bound-element', o) if 'AT the upper bound' in o else o)
+            for kind, node, (front, same) in recs:
+                present = front is False and same is True
+                absent = front is True or same is False
+                if kind == 'throw' and present:
+                    bad.append(('throws-when-found', 'the exception at %s can be reached although the entry in front of the upper bound '
+                                'carries the name' % tu.loc(node)))
+                elif kind == 'return' and absent:
+                    bad.append(('no-throw', 'the function can return at %s although no parameter matched: it must throw' % tu.loc(node)))
+                elif kind == 'return' and present:
+                    e = x.peel(tu.kids(node)[0]) if tu.kids(node) else None
+                    w = prev_elem(tu.kids(e)[0]) if e is not None and e.get('kind') == 'MemberExpr' and tu.kids(e) else None
+                    if e is None or e.get('kind') != 'MemberExpr' or w is None:
+                        und.append('cannot relate the returned `%s` to the upper bound' % (tu.show(e) if e else '?'))
+                    elif w != 'prev':
+                        bad.append(('upper-bound-element', 'the element AT the upper bound is returned; the last entry of the name is the '
+                                    'one in front of it'))
+                    elif e.get('name') != 'second':
+                        bad.append(('returns-name', 'the name `.first` of the matching parameter is returned instead of its value `.second`'))
+                elif kind == 'return':
+                    und.append('the return at %s is reached without both tests (bound == begin, name of the entry in front)' % tu.loc(node))
+            if not any(r[0] == 'throw' for r in recs):
+                bad.append(('no-throw', 'no exception is thrown when the parameter is absent'))
+    bad = [b for b in bad if isinstance(b, tuple)]
+    if bad:
+        seen = set()
+        for k, m in bad:
+            if (k, m) not in seen:
+                seen.add((k, m))
+                ctx.violation(R, inst, m, loc, key=key + k)
+    elif und:
+        for u in sorted(set(u if isinstance(u, str) else u[1] for u in und)):
+            ctx.undecided(R, inst, u, loc)
+    else:
+        ctx.ok(R, inst, ('the list is grouped by name by the constructor (std::stable_sort with `%s`, entries of one name in URL order); '
+                         % sc['label']) +
+               ('the entry in front of std::upper_bound is the last one written with that name; absent -> throw' if want == 'value'
+                else 'std::binary_search with the same comparator is true iff some entry has the name'), loc)
+    return True
+
+
 def check_url_lookup(ctx, tu, sch=None):
     sch = sch or url_store_scheme(tu)
     R = 'R-C18-4'
@@ -6599,6 +7067,8 @@ def check_url_lookup(ctx, tu, sch=None):
         if ms.match is None and lookup_via_helper(ctx, tu, f, R, inst, key, 'value', sch['dup']):
             continue
         if ms.match is None and lookup_via_algorithm(ctx, tu, f, R, inst, key, 'value', sch):
+            continue
+        if ms.match is None and lookup_via_sorted(ctx, tu, f, R, inst, key, 'value'):
             continue
         if ms.match is None or ms.direction is None:
             ctx.undecided(R, inst, ms.why or 'cannot find the scan', tu.fn_loc(f))
@@ -6750,6 +7220,8 @@ def check_url_lookup(ctx, tu, sch=None):
         if ms.match is None and lookup_via_helper(ctx, tu, f, R, inst, key, 'bool', sch['dup']):
             continue
         if ms.match is None and lookup_via_algorithm(ctx, tu, f, R, inst, key, 'bool', sch):
+            continue
+        if ms.match is None and lookup_via_sorted(ctx, tu, f, R, inst, key, 'bool'):
             continue
         if ms.match is None or ms.direction is None:
             ctx.undecided(R, inst, ms.why or 'cannot find the scan', tu.fn_loc(f))
@@ -7171,6 +7643,57 @@ def _owned_by_lambda(tu, f, nid):
     return False
 
 
+def names_only_order(tu, e):
+    """name of the comparator if e is a function / lambda  (const pair &a, const pair &b) { return a.first < b.first; }
+    (or >): a strict order on the names that never looks at the values"""
+    r = names_only_cmp(tu, e)
+    return r['label'] if r is not None else None
+
+
+def names_only_cmp(tu, e):
+    """{'label', 'fn': id of the comparator function / call operator, 'asc': a.first < b.first in parameter order} or None"""
+    e = tu.strip(e, casts=True)
+    for _ in range(6):
+        if e is not None and e.get('kind') in ('MaterializeTemporaryExpr', 'CXXBindTemporaryExpr', 'ExprWithCleanups', 'UnaryOperator') \
+                and tu.kids(e):
+            e = tu.strip(tu.kids(e)[0], casts=True)
+        elif e is not None and e.get('kind') == 'CXXConstructExpr' and len(tu.kids(e)) == 1:
+            e = tu.strip(tu.kids(e)[0], casts=True)
+        else:
+            break
+    fn = None
+    label = None
+    if e is not None and e.get('kind') == 'DeclRefExpr':
+        fn = tu.functions.get(e.get('referencedDecl', {}).get('id'))
+        label = e.get('referencedDecl', {}).get('name')
+    elif e is not None and e.get('kind') == 'LambdaExpr':
+        fn = tu.functions.get(tu.sd(e).get('op'))
+        label = 'the lambda at %s' % tu.loc(e)
+    if fn is None or fn['dep'] or tu.body(fn) is None or len(fn.get('params', [])) != 2:
+        return None
+    stm = [y for y in tu.walk(tu.body(fn)) if y.get('kind') in ('ReturnStmt', 'IfStmt', 'ForStmt', 'WhileStmt', 'DeclStmt', 'CallExpr',
+                                                                  'CXXMemberCallExpr', 'ConditionalOperator')]
+    if len(stm) != 1 or stm[0].get('kind') != 'ReturnStmt' or not tu.kids(stm[0]):
+        return None
+    c = tu.strip(tu.kids(stm[0])[0], casts=True)
+    if c is None or c.get('kind') != 'CXXOperatorCallExpr' or tu.sd(c).get('q') not in ('std::operator<', 'std::operator>'):
+        return None
+    ks = [tu.strip(y, casts=True) for y in tu.kids(c)[1:]]
+    pids = [p_['id'] for p_ in fn['params']]
+    got = []
+    for y in ks:
+        if y is None or y.get('kind') != 'MemberExpr' or y.get('name') != 'first' or not (tu.sd(y).get('q') or '').startswith('std::pair<'):
+            return None
+        b = tu.strip(tu.kids(y)[0], casts=True) if tu.kids(y) else None
+        if b is None or b.get('kind') != 'DeclRefExpr':
+            return None
+        got.append(b.get('referencedDecl', {}).get('id'))
+    if sorted(got) != sorted(pids) or got[0] == got[1]:
+        return None
+    asc = (got == pids) == (tu.sd(c).get('q') == 'std::operator<')
+    return {'label': label, 'fn': fn['id'], 'asc': asc}
+
+
 def order_scan(tu, field_q):
     """classify every access to the member `field_q` in every function body of the unit:
        [(kind, text, node, function)]  kind: append | read | iterate | destroy | undecided"""
@@ -7180,6 +7703,14 @@ def order_scan(tu, field_q):
         q = tu.sd(call).get('q') or ''
         nm = last_name(q)
         nargs = len(tu.kids(call)) - 1
+        if q in ('std::sort', 'std::stable_sort') and nargs == 3:
+            cmpf = names_only_order(tu, tu.kids(call)[3])
+            if cmpf is not None and q == 'std::stable_sort':
+                return ('keep', 'std::stable_sort with `%s`, which looks at the names only: entries of one name stay in URL order' % cmpf)
+            if cmpf is not None:
+                return ('destroy', 'std::sort is not a stable sort: `%s` looks at the names only, so entries of one name compare equal '
+                                   'and may come out in any order (libstdc++ permutes them from 17 elements on): the URL order of '
+                                   'parameters with equal names is lost' % cmpf)
         if q.startswith('std::') and nm in ORDER_DESTROY:
             return ('destroy', 'std::%s reorders / overwrites the elements: the URL order of parameters with equal names is lost' % nm)
         if q == 'std::stable_sort' and nargs == 2:
